@@ -152,13 +152,14 @@ func (s *SchemaValidator) Validate(data interface{}) *Result {
 
 	if data == nil {
 		// early exit with minimal validation
-		result.Merge(s.validators[0].Validate(data)) // type validator
-		result.Merge(s.validators[6].Validate(data)) // common validator
-
+		typeValidator, commonValidator := s.validators[0], s.validators[6]
 		if s.Options.recycleValidators {
+			// a recycled validator redeems itself: release it before use, so it is never redeemed twice
 			s.validators[0] = nil
 			s.validators[6] = nil
 		}
+		result.Merge(typeValidator.Validate(data))   // type validator
+		result.Merge(commonValidator.Validate(data)) // common validator
 
 		return result
 	}
@@ -224,10 +225,11 @@ func (s *SchemaValidator) Validate(data interface{}) *Result {
 			continue
 		}
 
-		result.Merge(v.Validate(d))
 		if s.Options.recycleValidators {
-			s.validators[idx] = nil // prevents further (unsafe) usage
+			// prevents further (unsafe) usage: a recycled validator redeems itself, even when it panics
+			s.validators[idx] = nil
 		}
+		result.Merge(v.Validate(d))
 		result.Inc()
 	}
 	result.Inc()
